@@ -17,7 +17,8 @@ ENTRIES = {
     'getter': "get s() {{ return 'g' }}", 'method': 'cb() {{ return 1 }}', 'amethod': "async p() {{ return 'x' }}", 'quoted': "'q-k': 'x'", 'quoted2': "'s': 'x'",
     'tq': "qq: 'y'", 'tqexpr': 'qq: f1()', 'tqget': "get qq() {{ return 'g' }}", 'tqmethod': 'qf() {{ return 3 }}', 'tqcomp': "['qq']: 'c'", 'tqnum': 'qn: 2',
     'faarrow': 'fa: () => {{}}', 'faident': 'fa: f1', 'fkident': 'fk: f1', 'fkget': 'get fk() {{ return f1 }}', 'fbident': 'fb: f1', 'fiident': 'fi: f1', 'fashort': 'fa',
-    'fngetter': 'get fn() {{ return f1 }}', 'ffshort': 'ff', 'fncall': 'fn: f1()', 'fucall': 'fu: f1()',
+    'fngetter': 'get fn() {{ return f1 }}', 'fngethoist': 'get fn() {{ return hoisted; function hoisted() {{ return 1 }} }}', 'fngetstmts': 'get fn() {{ const g = f1; return g }}',
+    'sgethoist': "get s() {{ return hoisted(); function hoisted() {{ return 'h' }} }}", 'ffshort': 'ff', 'fncall': 'fn: f1()', 'fucall': 'fu: f1()',
     'gmethod': '*cb() {{ yield 1 }}', 'agmethod': 'async *cb() {{ yield 2 }}', 'gmethodq': "*'qf'() {{ yield 3 }}", 'amethodcb': 'async cb() {{ return 4 }}',
     'complit': "['s']: 'x'", 'compnum': "[1]: 'x'", 'extra': 'zzz: 1', 'methodq': "'cb'() {{ return 2 }}",
 }
@@ -178,6 +179,11 @@ def oracle(env):
             obs.append(Obligation('the default Vue resolves is exactly the written value', b_and(r[0] == 'value', denote.expr_eq(ctx, r[1], wv) if r[0] == 'value' else False), info))
         elif kind == 'getter':
             okk = r[0] == 'block' and is_some(wv) and denote.expr_eq(ctx, r[1], wv.fields[0]) is True
+            if r[0] == 'value' and is_some(wv):
+                # a getter that only returns an expression may be given as that expression
+                st = wv.fields[0].get('stmts')
+                okk = len(st) == 1 and st[0].variant == 'Return' and is_some(st[0].fields[0].get('arg')) and \
+                    denote.expr_eq(ctx, r[1], st[0].fields[0].get('arg').fields[0]) is True
             obs.append(Obligation('a getter default resolves to what the getter returns', okk, info))
         elif kind == 'method':
             if types == ['Function']:
